@@ -308,13 +308,31 @@ def _run_bindings(ctx):
     # ---------------- direction A: the main graph, and a smaller one in which the ignore list changes
     # thorough: the ignore-list graph completely, the main graph within a step budget that covers
     # about two thirds of its edge groups (seeded choice; `exhaustive' says whether all were covered).
-    plan = [("QueryLog.gen.cfg", 3700 if ctx.quick else 115000), ("QueryLog.genig.cfg", 800 if ctx.quick else 0)]
+    plan = [("QueryLog.gen.cfg", 3700 if ctx.quick else 100000), ("QueryLog.genig.cfg", 800 if ctx.quick else 0)]
     res, by_act, table = [], {}, None
     summ = {k: 0 for k in ("walks", "steps", "queries", "covered", "groups", "bad", "flaky", "discards", "transit", "unobservable")}
     nrows = nstates_obs = nontrivial = 0
     samples_graph = []
-    for cfg, budget in plan:
-        gen = ctx.tlc("QueryLog", cfg, workers=4, timeout=400)
+    # Both edge generations start at once; the second is ready when the first graph has been walked.
+    gens = {}
+
+    def generate(cfg, workers):
+        try:
+            gens[cfg] = ctx.tlc("QueryLog", cfg, workers=workers, timeout=400)
+        except Exception as e:  # re-raised below
+            gens[cfg] = e
+
+    gthreads = [threading.Thread(target=generate, args=(plan[0][0], 4)),
+                threading.Thread(target=generate, args=(plan[1][0], 2))]
+    for t in gthreads:
+        t.start()
+    for (cfg, budget), gt in zip(plan, gthreads):
+        gt.join()
+        gen = gens[cfg]
+        if isinstance(gen, Exception):
+            for t in gthreads:
+                t.join()
+            raise gen
         table, rows, groups, inits = build_graph(gen["vectors"])
         if table is None or len(groups) < 1000 or not inits:
             raise vlib.Inconclusive("edge generation produced too little (%s): %d groups" % (cfg, len(groups)))
